@@ -89,7 +89,14 @@ def concretize_args(args, kwargs, model):
             rw = v.attrs['rowwise']
             tr = [[eval_int(model, d) for d in t] for t in rw.trailing]
             cls = RecordingModel if v.cls == 'model' else RecordingFunc
-            return cls(rw.name, rw.k, rw.tuple_kind, tr)
+            obj = cls(rw.name, rw.k, rw.tuple_kind, tr)
+            if v.cls == 'model':
+                # the entry mode of the module tree as the solver chose it (top flag, some child in training mode)
+                tv = lambda x, d: (z3.is_true(model.eval(x, model_completion=True)) if isinstance(x, z3.ExprRef) else (d if x is None else bool(x)))
+                top, sub = tv(v.attrs.get('training'), True), tv(v.attrs.get('sub_training'), False)
+                obj.train(top)
+                obj.probe.train(sub or top)
+            return obj
         if isinstance(v, Opaque) and v.cls == 'shuffle_fn':
             from .models import RecordingShuffle
             return RecordingShuffle()
@@ -271,17 +278,20 @@ class PropertyRun:
                 seen = set()
                 definite = []
                 for ob in obs:
-                    if ob.result == 'sat' and ob.kind != 'loop-pres' and not confirmed:
+                    if ob.result == 'sat' and ob.kind not in ('loop-pres', 'assumed-pattern') and not confirmed:
                         confirmed = self.replay_counter_model(rep.qualname, c, cfg, ob, seen, scope=None)
                 if not confirmed:
                     confirmed = self.small_scope_refute(rep.qualname, c, cfg, cname, seen)
                 if confirmed:
                     continue
                 for ob in obs:
-                    if ob.result == 'sat' and not getattr(ob, 'approx', True) and ob.kind not in ('loop-pres',) and not self.in_baseline(ob.name):
+                    if ob.result == 'sat' and ob.kind == 'assumed-pattern':
+                        self.undecided.append({'obligation': ob.name, 'reason': 'a validity condition of an assumed contract does not hold on this path '
+                                                                                '(the proof does not apply here; no verdict)'})
+                    elif ob.result == 'sat' and not getattr(ob, 'approx', True) and ob.kind not in ('loop-pres',) and not self.in_baseline(ob.name):
                         self.undecided.append({'obligation': ob.name, 'reason': 'refuted by the solver, no concrete failing input found, and not an obligation that was '
                                                                                 'discharged on the unchanged tree (baseline/obligations.json): no verdict'})
-                    elif ob.result == 'sat' and not getattr(ob, 'approx', True) and ob.kind not in ('loop-pres',):
+                    elif ob.result == 'sat' and not getattr(ob, 'approx', True) and ob.kind not in ('loop-pres', 'assumed-pattern'):
                         info = {'property': self.pid, 'obligation': ob.name, 'function': rep.qualname, 'cfg': cfg,
                                 'solver': {'result': 'sat', 'backend': ob.backend, 'seconds': round(ob.seconds, 3),
                                            'goal': str(ob.goal)[:2000]}, 'no_failing_input_found': True}
@@ -329,7 +339,7 @@ class PropertyRun:
             smt.discharge(r2.obligations, tier='quick', seed=self.seed)
             self.small_scope_runs = getattr(self, 'small_scope_runs', 0) + 1
             for ob in r2.obligations:
-                if ob.result == 'sat' and ob.kind != 'loop-pres':
+                if ob.result == 'sat' and ob.kind not in ('loop-pres', 'assumed-pattern'):
                     if self.replay_counter_model(qualname, c, cfg, ob, seen, scope=scope):
                         return True
         return False
